@@ -12,7 +12,7 @@ var c10Funcs = []string{
 	"simpleToken$1", "numberToken", "lineCommentToken", "blockCommentToken", "stringLiteralToken",
 	"expectAnyOfNext", "expectNext", "optNewline", "readEnumOptionValue", "readUntil", "readEnum", "readDeprecated",
 	"skipEndOfLineComments", "readStruct", "readFieldType", "readMessage", "readUnion", "readConst", "readOpCode",
-	"readBitflagExpr", "readBlockComment", "sanitizeComment", "readError", "decodeIntegerType", "bytesToOpCode", "parseCommentTag",
+	"readBitflagExpr", "parseBitflagExpr", "parseParenExpr", "evaluateBitflagExpr", "evaluateBitflagExpSigned", "evaluateBitflagExprUnsigned", "readBlockComment", "sanitizeComment", "readError", "decodeIntegerType", "bytesToOpCode", "parseCommentTag",
 }
 
 // C10: ReadFile never panics, reports reader failures, and reports success only at the end of the input.
@@ -37,6 +37,6 @@ func checkC10(r *Run) error {
 	if err := r.verify(e, []string{rootPkg}, sel, false); err != nil {
 		return err
 	}
-	r.Explanation = "The tokenizer and parser functions reachable from ReadFile are verified against contracts kept in /repo/verif_contracts.go: absence of panics (index, slice, nil, map, the unreadByte panic, decodeIntegerType's panic), preservation of the tokenizer invariant okTR (an I/O error of the reader is always on record; the record never holds an io.EOF marker between calls; comment tokens have the shape the parser slices), the rule that Next removes only the io.EOF marker it has just added, and at ReadFile's return statements: every return but the last returns a non-nil error (ERRRET), and at the last the error record is empty, the reader has not failed and its last read reported io.EOF (CONSUMED). Termination and the appended-definition clause are not decided by contracts (see DESIGN.md)."
+	r.Explanation = "The tokenizer and parser functions reachable from ReadFile are verified against contracts kept in /repo/verif_contracts.go: absence of panics (index, slice, nil, map, the unreadByte panic, decodeIntegerType's panic, no negative shift count in [flags] expressions), preservation of the tokenizer invariant okTR (an I/O error of the reader is always on record; the record never holds an io.EOF marker between calls; comment tokens have the shape the parser slices), the rule that Next removes only the io.EOF marker it has just added, and at ReadFile's return statements: every return but the last returns a non-nil error (ERRRET), and at the last the error record is empty, the reader has not failed and its last read reported io.EOF (CONSUMED). Termination and the appended-definition clause are not decided by contracts (see DESIGN.md)."
 	return nil
 }
